@@ -23,7 +23,7 @@ CHECKS = {
              "with an independent one-step call-by-value reference on merged templates (depth 2, groups <= 3) and, by path forking, on every closed "
              "hole-free term of up to 5 (quick) / 6 (thorough) nodes, where evaluate() is also compared with a big-step environment interpreter "
              "(same outcome, same ground value); plus program skeletons (recursion, mutual recursion, higher-order, nested groups) with all integer "
-             "literals symbolic. Integer operands are unbounded; z3 decides each path.",
+             "literals symbolic. Integer operands are unbounded; z3 decides each path. Skeletons include local groups of 2-3 definitions inside recursive functions and inside functions passed to higher-order functions, and a recursive definition that uses a later sibling.",
         note="Trusted: executor + library models (BigInt as mathematical integers, truncating division) validated against the compiled code each run; "
              "the reference semantics; z3. Evaluation beyond the fuel bound and terms with unresolved holes are outside the claim.",
         ref="DESIGN.md 4 (C02)"),
@@ -34,7 +34,7 @@ CHECKS["C03"] = dict(
          "open, shifts; hole cells as per-path store) is executed by path forking on every closed parser-shaped program of up to 4 (quick) / 5 "
          "(thorough) nodes, holes and omitted annotations included, all scalars symbolic. Whenever it accepts with all holes resolved, an independent "
          "reference checker for explicitly typed terms must accept the elaborated term and its type must be convertible with the reported one; z3 "
-         "decides each path and every counterexample is replayed on the compiled checker. One listed known finding (annotations are never checked).",
+         "decides each path and every counterexample is replayed on the compiled checker. One listed known finding (annotations are never checked). Plus positional 'interplay' families (DESIGN.md 3): aliases then a binder, two aliases then a function type, a group of two definitions under a binder (also applied), a group inside an annotation -- 6 to 13 nodes with all indices symbolic.",
     note="Trusted: executor + library models (validated each run on ~150-800 random programs against the compiled type_check, elaboration compared "
          "node by node), the reference checker (Type:Type, beta/delta/group unfolding, lambda annotations ignored in conversion), z3. Results with "
          "unresolved holes and programs beyond the node budget are outside the claim; deeper unifier defects are decided at the unify level by C12.",
@@ -54,14 +54,14 @@ CHECKS["C01"] = dict(
          "parser-shaped programs (<= 4/5 nodes with holes, plus families of definition groups with forward references, values and non-values in every "
          "order, and groups nested in definitions); for every accepted program evaluator::step is iterated (40-60 steps) and z3 decides on each path that "
          "evaluation ends in a value, keeps running, or stops at a division by zero. The executor names why a term is stuck; violations are replayed end to "
-         "end on the compiled code. Three listed known findings (value definitions used early, unresolved holes accepted, holes copied by open).",
+         "end on the compiled code. Three listed known findings (value definitions used early, unresolved holes accepted, holes copied by open). Added families: a group in which a function's body is a sum or call over group members and another member calls it; and program skeletons accepted by the compiled front end (recursion, mutual recursion, local groups, a recursive definition using a later sibling) with every literal symbolic, on which the real step is iterated to a value.",
     note="Trusted: executor + library models (validated each run against the compiled type_check and check_definitions), z3. Tokenizer and packrat "
          "stage are not part of this encoding (inputs are terms satisfying the parser-output invariants).",
     ref="DESIGN.md 4 (C01)")
 CHECKS["C04"] = dict(
     text="Bounded symbolic verification of type preservation for results: type_check -> evaluate -> the reference checker types the value; on each "
          "path (closed programs <= 4/5 nodes with holes, plus groups of 2 definitions over leaves/sums/calls/lambdas) z3 decides that the value's type "
-         "is convertible with the reported type and that int/bool/function/type results have the matching value form.",
+         "is convertible with the reported type and that int/bool/function/type results have the matching value form. Plus the interplay families of DESIGN.md 3 (aliases then a binder, a group under a binder, a group inside an annotation).",
     note="Trusted: executor + models (validated against the compiled code each run), reference checker, z3. Results with unresolved holes, "
          "evaluation beyond fuel and larger programs are outside the claim.",
     ref="DESIGN.md 4 (C04)")
@@ -69,21 +69,21 @@ CHECKS["C05"] = dict(
     text="Bounded symbolic verification of completeness on annotated programs: every closed hole-free program (<= 4/5 nodes; all groups of 2 and 3 leaf "
          "definitions incl. forward type aliases) that the reference checker accepts is run through the real type_check, which must terminate within fuel, "
          "accept, and report a convertible type whose normalisation terminates; and for every accepted program (holes allowed) the elaborated term equals the "
-         "source node for node. z3 decides each path; counterexamples replayed on the compiled checker. One defect found this way was repaired (fix: 32fe3ab).",
+         "source node for node. z3 decides each path; counterexamples replayed on the compiled checker. One defect found this way was repaired (fix: 32fe3ab). Plus the fully annotated interplay families of DESIGN.md 3.",
     note="Trusted: executor + models, the reference checker as the definition of 'well typed' (explicit application of an implicit function is ill typed), z3.",
     ref="DESIGN.md 4 (C05)")
 CHECKS["C06"] = dict(
     text="Bounded symbolic verification of coherence between conversion and evaluation: by path forking over the real normalize_weak_head, unify, "
          "syntactically_equal, evaluate/step and type_check: accepted closed programs (<= 4/6 nodes) of type int/bool normalise to the literal they evaluate to "
          "and unify with their first three reducts; hole-free pairs (2+2 / 3+3 nodes, four contexts): unify is symmetric and agrees with equality of reference "
-         "normal forms; every hole-free term unifies with itself. z3 decides each path.",
+         "normal forms; every hole-free term unifies with itself. z3 decides each path. Plus pairs of groups of 1 or 2 definitions of equal and different sizes, and A1 on the program skeletons of C02 (literals symbolic).",
     note="Trusted: executor + models (validated against the compiled code), reference normaliser (lambda annotations ignored, division by zero stuck), z3.",
     ref="DESIGN.md 4 (C06)")
 CHECKS["C18"] = dict(
     text="Bounded symbolic verification of context handling: type_check under five context shapes mixing parameters and definitions (offsets 0 and n-i) on "
          "terms <= 4/5 nodes with holes: after every call, accepted or rejected, both context vectors are identical to before (same entries); the verdict equals "
          "that of the closed program obtained by binding the context around the term; normalize_weak_head of a context variable equals the reference for symbolic "
-         "index. z3 decides each path; counterexamples replayed on the compiled code with the same contexts.",
+         "index. z3 decides each path; counterexamples replayed on the compiled code with the same contexts. Nine context shapes (parameters, definitions, type-level aliases next to other entries, and two definitions that close as one group); X4: the type reported for the closed program is the open type closed over the context (reference conversion); panics under a context are reported.",
     note="Trusted: executor + models (validated incl. under a non-empty context), z3. Contexts longer than 2 entries are outside the claim.",
     ref="DESIGN.md 4 (C18)")
 
@@ -143,7 +143,7 @@ CHECKS["C15"] = dict(
          "exploration of resolve_variables with symbolic names, keeping the obligation that each unbound occurrence is reported once with that identifier's "
          "range. U: the C09 exploration of tokenize, keeping the obligation that an unexpected symbol's range is exactly that grapheme. B: the packrat parser on "
          "symbolic token sequences of 3-6 (quick) / 7 (thorough) tokens over the binder alphabet: every lambda/pi/let binder's range is its identifier token. "
-         "Defects found and repaired: by L fix bc229c2 (overline counted bytes), by B fix 0ee217c (implicit binder pointed at the brace). Counterexamples are rendered by the compiled listing / type checker (a one-line ruler as source recovers the range).",
+         "Defects found and repaired: by L fix bc229c2 (overline counted bytes), by B fix 0ee217c (implicit binder pointed at the brace). Counterexamples are rendered by the compiled listing / type checker (a one-line ruler as source recovers the range). Plus O: every definition-order diagnostic of the real check_definitions on symbolic groups of 2-3 definitions carries the range of the definition it names.",
     note="Trusted: executor + models (char predicates and UTF-8 widths read from compiled std and validated), the reference checker's blame site, z3. NOT covered: "
          "re-parsing a node's slice; colour mode; "
          "display width of wide/combining characters.",
@@ -170,7 +170,7 @@ CHECKS["C19"] = dict(
          "applied annotated identity (annotation = the reported type), R4 `if true then p else p`, each at the root. Token level (the real parser on every "
          "sequence of <= 3 / 4 symbolic tokens, names symbolic): R6 swapping the two names everywhere gives the same term up to names and the same acceptance, "
          "R7 parentheses around the program and around each single atom in expression position give the same term. Counterexamples are replayed on the "
-         "compiled type checker/evaluator or tokenizer/parser.",
+         "compiled type checker/evaluator or tokenizer/parser. Plus rewrites at an inner group (unused definition appended / in front, body named, body wrapped in if-true) and exchange of two function definitions, built from mapped views of the same symbolic nodes, on hole-free families (groups of 1 and 2 definitions under a binder, applied to one and two arguments; two annotated functions), and operand rewrites (an operand wrapped in if-true or in an applied identity) for every arithmetic/comparison operator.",
     note="Trusted: executor + models, z3. Programs accepted with unresolved holes (known finding of C01) are excluded as baselines. NOT covered: R1-R4 at inner "
          "sites, reordering of independent definitions, sequences of rewrites, the CLI layer.",
     ref="DESIGN.md 4 (C19)")
@@ -181,7 +181,7 @@ CHECKS["C09"] = dict(
          "multi-byte blanks, combining marks, an illegal symbol, an emoji); byte offsets are symbolic sums of UTF-8 widths. Oracle: an independent maximal-munch "
          "lexer whose line-break rule is computed from grammar.y. z3 decides on each path: same token kinds, byte ranges, lexemes and literal values as the "
          "reference; ranges increasing, non-empty, within the text; on rejection exactly one error per unexpected grapheme with that grapheme's range. Two "
-         "defects found this way were repaired (fix: b485fec, 624d172).",
+         "defects found this way were repaired (fix: b485fec, 624d172). Plus families over restricted alphabets: digit-only texts of 5..40 (thorough 80) symbolic characters (one path per length, the value a linear form in the digits; str::parse modelled with its overflow) and words of up to 6 (7) characters over the letters of the keywords, `_` and a digit.",
     note="Trusted: executor + library models; char predicates/UTF-8 widths of the representatives and the grapheme-break rule are read from and validated "
          "against the compiled std/unicode-segmentation on every run; z3. Longer texts and other code points are outside the claim.",
     ref="DESIGN.md 4 (C09)")
@@ -189,18 +189,18 @@ CHECKS["C10"] = dict(
     text="Relational symbolic verification of layout insensitivity: tokenize is executed on pairs of related symbolic texts (shared symbolic characters) and z3 "
          "decides that the token streams agree: deleting a comment up to its line break (empty, multi-byte-ending, at end of file); inserting a blank (space, tab, "
          "CR, U+00A0) anywhere outside a token; doubling/tripling a line break; replacing a separating line break by `;`; and, for all 28x28 pairs of token kinds "
-         "with two kinds of gap, that a line break yields a terminator iff LAST/FIRST of `term` in grammar.y say so (`;` counting as both, infix MINUS continuing).",
+         "with two kinds of gap, that a line break yields a terminator iff LAST/FIRST of `term` in grammar.y say so (`;` counting as both, infix MINUS continuing). Plus L6, context independence of the line-break rule: 2-3 symbolic context characters over brackets and separators, then token, line break, token, against the reference lexer.",
     note="Trusted: as C09. The parser's equal treatment of the two terminator kinds is not part of this encoding.",
     ref="DESIGN.md 4 (C10)")
 
 CHECKS["C17"] = dict(
     text="Bounded work bound for the packrat parser (the mechanism behind the property, not its asymptotics): the real parser::parse -- every memoised "
-         "parse_* function with the cache macros expanded and the HashMap cache -- is executed on every sequence of <= 3 (quick) / 5 (thorough) symbolic "
+         "parse_* function with the cache macros expanded and the HashMap cache -- is executed on every sequence of <= 3 (quick) / 4 (thorough) symbolic "
          "tokens over all 29 kinds, well-formed and malformed alike, and on every path the number of calls of parse_* functions (cache hits included) must "
          "stay below 4 * S * (n + 1), S being the number of static parse_* call sites read from parser.rs on this run (the packrat invariant gives "
          "S * (n + 1) + 1). A parser whose work multiplies per nesting level (failures not memoised, a cycle of un-memoised functions) exceeds the bound "
          "by orders of magnitude already on 0-2 tokens because the precedence ladder is ~15 levels deep. A violation is replayed natively: the compiled "
-         "tokenizer + parser timed on the witness wrapped in 0..3 pairs of parentheses must grow geometrically.",
+         "tokenizer + parser timed on the witness wrapped in 0..3 pairs of parentheses must grow geometrically. Part D: the definition-order pass on a symbolic group of one non-value definition and three functions with shared helpers enters check_definition at most once per definition (without its `visited` set the walk is exponential in the group size); replayed natively on a layered family of 20/26/32 functions.",
     note="This does NOT decide growth for n in the thousands (no bounded check can); it decides that within the bound no input costs more than a constant "
          "multiple of the packrat work, which is what excludes the exponential families at their smallest members. The factor 4 tolerates un-memoising "
          "single functions whose callers are memoised (parsing stays linear: not a violation). The tokenizer (a single pass) and wall-clock time are outside. "
